@@ -395,6 +395,7 @@ def r9_layout(ck, F):
         e = ei._expr_of_def((st[0][0], "assign", st[0][1]["rv"]))
         ok = _norm(e.show()) == _norm("(self.entries_len AddWithOverflow (slice::len(key) AddWithOverflow slice::len(data)).0).0")
     ck.ob(R, "entries-len-advanced-first", ok, "entries_len += key.len() + data.len() before the bytes are copied", ei)
+    realloc_layout(ck, F, R)
     # readers
     rd = {"iter": (F.closures_of(A("entries_iter")), 4), "sort_by_key": (F.closures_of(A("entries_sort")), 2)}
     if F.has_body(A("entries_par_sort")) and not calls(F.body(A("entries_par_sort")), A("entries_sort")):
@@ -425,8 +426,89 @@ def r9_layout(ck, F):
         ck.ob(R, f"bounds-tail-split/{p.split('::')[-1]}", ok, f"buffer split at bounds_count * {sz} (size of EntryBound)", b)
 
 
+def realloc_layout(ck, F, R):
+    """reallocate_buffer keeps the two-ended layout: the bounds stay at the front, the entry bytes stay at the back —
+    of the *new* buffer (key_start is a distance from the buffer's end: C07-R9 reader-layout)"""
+    from . import fmt
+    rb = F.body(A("entries_realloc"))
+    sz = F.adts[A("entry_bound")].get("size")
+    news = [s for s, c, t in calls(rb, A("aligned_new"))]
+    cps = calls(rb, "::copy_from_slice")
+    ck.exact(R, "copies in reallocate_buffer", len(cps), 2, F.config)
+    if len(news) != 1 or len(cps) != 2:
+        return
+    is_new = lambda x: x.strip().k == "call" and x.strip().x.get("site") == news[0]
+    is_old = lambda x: is_self_field(x, "buffer")
+
+    def symf(root):
+        def sym(x):
+            if x.k == "call" and x.x["path"].endswith("::len") and x.a and root(x.a[0]):
+                return "len"
+            if x.k == "call" and x.x["path"].endswith("::len") and x.a and (is_new(x.a[0]) or is_old(x.a[0])):
+                return "otherlen"
+            if is_self_field(x, "entries_len"):
+                return "e"
+            if is_self_field(x, "bounds_count"):
+                return "c"
+            return None
+        return sym
+    got = []
+    for s_, c, t in cps:
+        a_ = rb.arg_exprs(s_)
+        d = fmt.slice_region(a_[0], symf(is_new), is_new)
+        o = fmt.slice_region(a_[1], symf(is_old), is_old)
+        got.append((d, o))
+    front = ({}, {"c": sz})
+    back = ({"len": 1, "e": -1}, {"len": 1})
+    okf = any(d == front and o == front for d, o in got)
+    okb = any(d == back and o == back for d, o in got)
+    show = [((fmt.lin_str(d[0]), fmt.lin_str(d[1])) if d else "?", (fmt.lin_str(o[0]), fmt.lin_str(o[1])) if o else "?") for d, o in got]
+    ck.ob(R, "realloc-layout/bounds-front", okf, f"bounds: new[0 .. {sz}*bounds_count] <- old[0 .. {sz}*bounds_count] (copies, as (dst, src) regions over each buffer's own len: {show})", rb)
+    ck.ob(R, "realloc-layout/entries-back", okb, f"entry bytes: new[len - entries_len ..] <- old[len - entries_len ..], each relative to its own buffer's end (copies: {show})", rb)
+
+
+def _plain_arith(s):
+    """`(a AddWithOverflow b).0` -> `(a Add b)`: with overflow checks compiled out (config rel) MIR has the plain
+    operator, and the layout facts compared here are the same either way"""
+    changed = True
+    while changed:
+        changed = False
+        for m in ("AddWithOverflow", "SubWithOverflow", "MulWithOverflow"):
+            i = s.find(" " + m + " ")
+            if i < 0:
+                continue
+            # the enclosing parenthesis of this operator
+            depth, lo = 0, None
+            for j in range(i, -1, -1):
+                if s[j] == ")":
+                    depth += 1
+                elif s[j] == "(":
+                    if depth == 0:
+                        lo = j
+                        break
+                    depth -= 1
+            depth, hi = 0, None
+            for j in range(i, len(s)):
+                if s[j] == "(":
+                    depth += 1
+                elif s[j] == ")":
+                    if depth == 0:
+                        hi = j
+                        break
+                    depth -= 1
+            if lo is None or hi is None:
+                return s
+            tail = s[hi + 1:]
+            if tail.startswith(".0"):
+                tail = tail[2:]
+            s = s[:i] + " " + m[:3] + " " + s[i + len(m) + 2:hi + 1] + tail
+            changed = True
+    return s
+
+
 def _norm(s):
     import re
+    s = _plain_arith(s)
     s = re.sub(r"::deref(_mut)?\(([^()]*)\)", r"\2", s)
     s = re.sub(r"\bindex::", "", s)
     return s.replace(" ", "")
